@@ -155,6 +155,10 @@ def prop(spec, rec):
         labels.add("scheduler_swapped_mid_run")
         if swap >= 1 and float(agg[:swap].max()) > float(agg[swap:].max() if agg[swap:].size else 0.0):
             labels.add("peak_before_swap")
+    if spec.get("pilots_a_hair_below_zero"):
+        labels.add("pilots_a_hair_below_zero")
+        if (R < 0).any():
+            labels.add("negative_rate_recorded")
     if multi:
         labels.add("multi_period_charging")
     if vacant_pilot:
@@ -216,7 +220,7 @@ def subchecks(tier):
             prop,
             quick=400,
             thorough=30000,
-            floors={"multi_period_charging": 0.236, "pilot_on_vacant_station": 0.164, "noisy_battery_charged": 0.1, "battery_filled": 0.077, "mixed_voltage": 0.3, "fractional_period": 0.05, "scheduler_swapped_mid_run": 0.15, "peak_before_swap": 0.03, "continued_from_a_json_checkpoint": 0.05},
+            floors={"multi_period_charging": 0.236, "pilot_on_vacant_station": 0.164, "noisy_battery_charged": 0.1, "battery_filled": 0.077, "mixed_voltage": 0.3, "fractional_period": 0.05, "scheduler_swapped_mid_run": 0.15, "peak_before_swap": 0.03, "continued_from_a_json_checkpoint": 0.05, "negative_rate_recorded": 0.025},
             min_nontrivial=20,
         ),
         Given("ledger_replug", replug_cases(), prop_replug, quick=800, thorough=60000, floors={"ev_object_used_again": 0.185, "reset_between_sessions": 0.185}, jobs_quick=2),
@@ -231,6 +235,25 @@ def ledger_cases(draw):
     if draw(st.integers(0, 2)) == 0:
         spec["swap_scheduler_at"] = draw(st.sampled_from(sc.Model(spec).invocations))
         spec["swap_via_json"] = draw(st.sampled_from([None, None, "string", "path", "buffer"]))
+    if spec["scheduler"]["kind"] == "scripted" and not spec["scheduler"].get("always_max") and draw(st.integers(0, 3)) == 0:
+        # "stop" pilots that come out of a scheduler's arithmetic a hair below zero: every EVSE class
+        # accepts values within 1e-3 A of 0 A, and whatever the battery then reports is what must be
+        # booked (rates, EV energy and battery charge move together, here by a few 1e-5 kWh downwards).
+        # Ideal batteries only: the two-stage model warns that it is not meant for negative pilots.
+        hit = False
+        for e in spec["scheduler"]["table"]:
+            for sid, vals in e.get("rows", {}).items():
+                for k, v in enumerate(vals):
+                    # 0 A is allowable on every station of a simulation
+                    if draw(st.integers(0, 2 if v == 0 else 4)) == 0:
+                        vals[k] = draw(st.sampled_from([-9e-4, -5e-4, -1e-6]))
+                        hit = True
+            if e.get("vtype") == "int":
+                e["vtype"] = "float"
+        if hit:
+            for x in spec["sessions"]:
+                x["battery"] = {"model": "ideal", "cap": x["battery"]["cap"], "init": x["battery"]["init"], "maxp": x["battery"]["maxp"]}
+            spec["pilots_a_hair_below_zero"] = True
     return spec
 
 
